@@ -46,6 +46,19 @@ def out_width(nd, o, W):
     return 1 if nd['cls'] == 'Equal' else W
 
 
+# library blocks with a schematic symbol of their own (Schematic.mapping), fixed arity: how to wire one up
+_B2 = dict(ins=[('a', 'w'), ('b', 'w')], out='w')
+SUBCLASS_BASES = {
+    'Not': dict(ins=[('a', 'w')], out='w'), 'Buf': dict(ins=[('a', 'w')], out='w'),
+    'And2': _B2, 'Or2': _B2, 'Nor2': _B2, 'Xor2': _B2, 'Add': _B2, 'Sub': _B2, 'Mul': _B2,
+    'Mux2': dict(ins=[('sel', '1'), ('sel0', 'w'), ('sel1', 'w')], out='w'),
+    'Reg': dict(ins=[('d', 'w')], out='w'),
+    'Bit': dict(ins=[('a', 'w')], out='1'), 'Range': dict(ins=[('a', 'w')], out='range'),
+    'And': dict(ins=[('a', 'w'), ('b', 'w'), ('c', 'w')], out='w', list=True),
+    'Or': dict(ins=[('a', 'w'), ('b', 'w'), ('c', 'w')], out='w', list=True),
+}
+
+
 def classes():
     if _K:
         return _K
@@ -174,6 +187,61 @@ def classes():
                 getattr(py4hw, cls)(self, 'g', ins, t)
             py4hw.Buf(self, 'b', t, r)
 
+    class HSub(py4hw.Logic):
+        """subclass class: one child whose class is a USER SUBCLASS of a library block that has its own schematic symbol; the
+        subclass declares extra input/output ports after super().__init__ (a gated / observed variant of the gate).  A plain
+        instance of the base class sits next to it on the same inputs.  Every child output goes through a Buf to a block output."""
+        def __init__(self, parent, name, base, xin, xout, w):
+            super().__init__(parent, name)
+            w = max(2, w) if base in ('Bit', 'Range') else w
+            spec = SUBCLASS_BASES[base]
+            iw = [self.addIn(n, parent.wire(n, w if k == 'w' else 1)) for n, k in spec['ins']]
+            xi = [self.addIn('x%d' % i, parent.wire('x%d' % i, w if i % 2 else 1)) for i in range(xin)]
+            rw = {'w': w, '1': 1, 'range': 2}[spec['out']]
+            consts = {'Bit': [w - 1], 'Range': [w - 1, w - 2]}.get(base, [])
+            bcls = getattr(py4hw, base)
+
+            def init(me, parent_, name_, ins_, r_, xi_, xo_):
+                if spec.get('list'):
+                    bcls.__init__(me, parent_, name_, list(ins_), r_)
+                else:
+                    bcls.__init__(me, parent_, name_, *(list(ins_) + consts + [r_]))
+                me.xi = [me.addIn('en%d' % i, x) for i, x in enumerate(xi_)]
+                me.xo = [me.addOut('mon%d' % i, x) for i, x in enumerate(xo_)]
+                if not me.isPrimitive():
+                    for i, x in enumerate(xo_):
+                        py4hw.Buf(me, 'xmon%d' % i, ins_[0], x)
+
+            body = dict(__init__=init)
+            if callable(getattr(bcls, 'propagate', None)):
+                def propagate(me):
+                    bcls.propagate(me)
+                    for x in me.xo:
+                        x.put(me.xi[0].get() if me.xi else 1)
+                body['propagate'] = propagate
+            elif callable(getattr(bcls, 'clock', None)):
+                def clock(me):
+                    bcls.clock(me)
+                    for x in me.xo:
+                        x.prepare(me.xi[0].get() if me.xi else 1)
+                body['clock'] = clock
+            ucls = type('User' + base, (bcls,), body)
+            outs = []
+            for tag, cls_, xi_, nxo in (('u', ucls, xi, xout), ('p', bcls, None, 0)):
+                t = self.wire(tag + '_t', rw)
+                xo = [self.wire('%s_m%d' % (tag, i), w if cls_ is not ucls or not callable(getattr(bcls, 'propagate', None)) and not callable(getattr(bcls, 'clock', None)) else 1)
+                      for i in range(nxo)]
+                if cls_ is ucls:
+                    ucls(self, 'user', iw, t, xi_, xo)
+                elif spec.get('list'):
+                    bcls(self, 'plain', list(iw), t)
+                else:
+                    bcls(self, 'plain', *(list(iw) + consts + [t]))
+                outs += [t] + xo
+            for k, t in enumerate(outs):
+                py4hw.Buf(self, 'ob%d' % k, t, self.addOut('r%d' % k, parent.wire('r%d' % k, t.getWidth())))
+
+    _K.update(HSub=HSub)
     _K.update(HLeaf=HLeaf, HReg=HReg, HNet=HNet, HChild=HChild, HChain=HChain, HGate=HGate)
     return _K
 
@@ -399,6 +467,8 @@ def build(case):
         return classes()['HChild'](hw, 'wrap', recipe(case['src'], case['block']), tup(case['cfg']))
     if case['type'] == 'gate':
         return classes()['HGate'](hw, 'wide', case['cls'], case['n'], case['w'])
+    if case['type'] == 'subclass':
+        return classes()['HSub'](hw, 'sub', case['base'], case['xin'], case['xout'], case['w'])
     if case['type'] == 'chain':
         n = case['n']
         if case['order'] == 'output_first':
